@@ -165,8 +165,171 @@ Fixpoint spec_steps (dm : dims) (prev : obs) (steps : list (op * obs)) : bool :=
       end
   end.
 
-Definition check_spec (c : case) : bool :=
+Definition check_plain (c : case) : bool :=
   match c with
   | CHist dl nd steps => spec_steps (dims_of dl) (view (length dl) nd None init_state) steps
   | CCrash => false
   end.
+
+(* ================================================================================================================ *)
+(* Round 3: the FRAMED invariant of Spec.v (the one that is proved for every history, Props.C18_framed_invariant_awg / _dac)
+   evaluated on the observations.  The status of every name is tracked by otrack_awg / otrack_dac, which are Spec.track_awg / track_dac read off the
+   observations before / after the call (Proofs_obs.otrack_awg_view / otrack_dac_view: on the model's own views they ARE Spec.track_awg / track_dac).
+   Unlike the plain check this one keeps speaking after a call that raised and left an effect: the framed invariant
+   is proved for histories with raising calls. *)
+Definition otrack_awg (o : op) (prev ob : obs) (cl : list N * list N) : list N * list N :=
+  let (cov, lost) := cl in
+  match o with
+  | OSetChannel id _ _ | ORmChannel id =>
+      if same_members sch_full_eqb (get_set id (o_chmap prev)) (get_set id (o_chmap ob)) then (cov, lost)
+      else (users_ch (o_regs prev) id ++ cov, lost)
+  | ORegister name _ _ _ _ => match o_err ob with None => (filter_out name cov, lost) | Some _ => (cov, lost) end
+  | ORemove name => (filter_out name cov, lost)
+  | OClear =>
+      ([], filter (fun n => match lookup n (o_regs prev) with
+                            | Some r => negb (forallb (fun a => memN a (known_awgs (o_chmap prev))) (r_awgs r))
+                            | None => true
+                            end) cov ++ lost)
+  | _ => (cov, lost)
+  end.
+
+Definition otrack_dac (o : op) (prev ob : obs) (cl : list N * list N) : list N * list N :=
+  let (cov, lost) := cl in
+  match o with
+  | OSetMeasurement name _ _ =>
+      if same_members mask_route_eqb (get_set name (o_mmap prev)) (get_set name (o_mmap ob)) then (cov, lost)
+      else (users_meas (o_regs prev) name ++ cov, lost)
+  | ORegister name _ _ _ _ => match o_err ob with None => (filter_out name cov, lost) | Some _ => (cov, lost) end
+  | ORemove name => (filter_out name cov, lost)
+  | OClear =>
+      ([], filter (fun n => match lookup n (o_regs prev) with
+                            | Some r => negb (forallb (fun d => memN d (known_dacs (o_mmap prev))) (r_dacs r))
+                            | None => true
+                            end) cov ++ lost)
+  | _ => (cov, lost)
+  end.
+
+Definition in_range (n : nat) (l : list N) : bool := forallb (fun a => Nat.ltb (N.to_nat a) n) l.
+
+(* Spec.framed_inv_awg / framed_inv_dac on the observed devices *)
+Definition framed_obs_awg (dm : dims) (ca : list N * list N) (ob : obs) : bool :=
+  let cm := o_chmap ob in let rg := o_regs ob in let na := length (o_awgs ob) in
+  nodupN (keys rg)
+  && forall_idx (fun a ast =>
+       nodupN (keys (a_progs ast))
+       && forallb (fun ne => negb (is_clean ca (fst ne))
+                             || match lookup (fst ne) rg with
+                                | Some r => uses_awg cm (r_chans r) a && entry_ok dm cm (r_tag r) (r_chans r) a (snd ne)
+                                | None => false
+                                end) (a_progs ast)
+       && forallb (fun nr => negb (is_clean ca (fst nr)) || negb (uses_awg cm (r_chans (snd nr)) a)
+                             || has_key (fst nr) (a_progs ast)) rg
+       && match a_armed ast with Some n => is_lost ca n || has_key n (a_progs ast) | None => true end)
+     0%N (o_awgs ob)
+  && forallb (fun nr => negb (is_clean ca (fst nr))
+                        || forallb (fun a => Bool.eqb (memN a (r_awgs (snd nr))) (uses_awg cm (r_chans (snd nr)) a))
+                                   (Nseq na ++ r_awgs (snd nr))) rg
+  && forallb (fun n => negb (is_cov ca n)
+                       || match lookup n rg with
+                          | Some r => forall_idx (fun a ast => Bool.eqb (has_key n (a_progs ast)) (memN a (r_awgs r)))
+                                                 0%N (o_awgs ob) && in_range na (r_awgs r)
+                          | None => false
+                          end) (fst ca).
+
+Definition framed_obs_dac (cd : list N * list N) (ob : obs) : bool :=
+  let mm := o_mmap ob in let rg := o_regs ob in let nd := length (o_dacs ob) in
+  forall_idx (fun d dst =>
+       nodupN (keys (d_wins dst))
+       && forallb (fun nw => negb (is_clean cd (fst nw))
+                             || match lookup (fst nw) rg with
+                                | Some r => uses_dac mm (r_meas r) d && dac_entry_ok mm (r_meas r) d (snd nw)
+                                | None => false
+                                end) (d_wins dst)
+       && forallb (fun nr => negb (is_clean cd (fst nr)) || negb (uses_dac mm (r_meas (snd nr)) d)
+                             || has_key (fst nr) (d_wins dst)) rg
+       && match d_armed dst with Some n => is_lost cd n || has_key n (d_wins dst) | None => true end)
+     0%N (o_dacs ob)
+  && forallb (fun nr => negb (is_clean cd (fst nr))
+                        || forallb (fun d => Bool.eqb (memN d (r_dacs (snd nr))) (uses_dac mm (r_meas (snd nr)) d))
+                                   (Nseq nd ++ r_dacs (snd nr))) rg
+  && forallb (fun n => negb (is_cov cd n)
+                       || match lookup n rg with
+                          | Some r => forall_idx (fun d dst => Bool.eqb (has_key n (d_wins dst)) (memN d (r_dacs r)))
+                                                 0%N (o_dacs ob) && in_range nd (r_dacs r)
+                          | None => false
+                          end) (fst cd).
+
+(* post-conditions, framed: what Props.v proves after ANY history.
+   clean name: the plain post-condition.  covered name (copies exactly on the recorded devices): arm_program arms every
+   wired generator that holds the program and disarms every wired generator that does not, arms every acquisition
+   device that holds its windows; update_parameters reaches exactly the wired generators that hold it; remove_program
+   removes it everywhere.  lost name: nothing.  After clear_programs whatever is still held is a lost name. *)
+Definition fpost_ok (o : op) (ca cd : list N * list N) (prev ob : obs) : bool :=
+  let cm := o_chmap ob in let mm := o_mmap ob in
+  match o with
+  | ORemove name =>
+      alist_equiv reg_same (remove_key name (o_regs prev)) (o_regs ob)
+      && (is_lost ca name || forallb (awg_gone name) (o_awgs ob))
+      && (is_lost cd name || forallb (dac_gone name) (o_dacs ob))
+  | OClear =>
+      match o_regs ob with [] => true | _ => false end
+      && forallb (fun ast => forallb (fun ne => is_lost ca (fst ne)) (a_progs ast)) (o_awgs ob)
+      && forallb (fun dst => forallb (fun nw => is_lost cd (fst nw)) (d_wins dst)) (o_dacs ob)
+  | OArm name | ORun name =>
+      alist_equiv reg_same (o_regs prev) (o_regs ob)
+      && match lookup name (o_regs ob) with
+         | Some r =>
+             (if is_clean ca name then forall_idx (awg_arm_post cm name (r_chans r)) 0%N (o_awgs ob)
+              else if is_cov ca name then
+                forall_idx (fun a ast => negb (memN a (known_awgs cm))
+                                         || optN_eqb (a_armed ast) (if has_key name (a_progs ast) then Some name else None))
+                           0%N (o_awgs ob)
+              else true)
+             && (if is_clean cd name then forall_idx (dac_arm_post mm name (r_meas r)) 0%N (o_dacs ob)
+                 else if is_cov cd name then
+                   forallb (fun dst => negb (has_key name (d_wins dst)) || optN_eqb (d_armed dst) (Some name)) (o_dacs ob)
+                 else true)
+             && match o with
+                | ORun _ => list_eqb N.eqb (o_cblog ob) (r_cb r :: o_cblog prev)
+                | _ => list_eqb N.eqb (o_cblog ob) (o_cblog prev)
+                end
+         | None => false
+         end
+  | OUpdateParams name ptag =>
+      alist_equiv reg_same (o_regs prev) (o_regs ob)
+      && match lookup name (o_regs ob), o_vollog ob with
+         | Some r, (n, t, got) :: rest =>
+             N.eqb n name && N.eqb t ptag && nodupN got && Nat.eqb (length rest) (length (o_vollog prev))
+             && (if is_clean ca name then
+                   forallb (fun a => Bool.eqb (memN a got) (uses_awg cm (r_chans r) a)) (Nseq (length (o_awgs ob)) ++ got)
+                 else if is_cov ca name then
+                   forall_idx (fun a ast => Bool.eqb (memN a got) (memN a (known_awgs cm) && has_key name (a_progs ast)))
+                              0%N (o_awgs ob) && in_range (length (o_awgs ob)) got
+                 else true)
+         | _, _ => false
+         end
+  | _ => post_ok o prev ob
+  end.
+
+Fixpoint fspec_steps (dm : dims) (ca cd : list N * list N) (prev : obs) (steps : list (op * obs)) : bool :=
+  match steps with
+  | [] => true
+  | (o, ob) :: rest =>
+      let ca' := otrack_awg o prev ob ca in
+      let cd' := otrack_dac o prev ob cd in
+      match o_err ob with
+      | Some _ => framed_obs_awg dm ca' ob && framed_obs_dac cd' ob && fspec_steps dm ca' cd' ob rest
+      | None => fpost_ok o ca' cd' prev ob && logs_ok o prev ob && framed_obs_awg dm ca' ob && framed_obs_dac cd' ob
+                && fspec_steps dm ca' cd' ob rest
+      end
+  end.
+
+(* the framed specification: failing it is not permitted by any theorem => VIOLATION.
+   A case that fails check_plain but passes check_framed is an instance of known finding C18-rewire-stale. *)
+Definition check_framed (c : case) : bool :=
+  match c with
+  | CHist dl nd steps => fspec_steps (dims_of dl) ([], []) ([], []) (view (length dl) nd None init_state) steps
+  | CCrash => false
+  end.
+
+Definition check_spec (c : case) : bool := check_plain c && check_framed c.
